@@ -73,6 +73,7 @@ func (x *Exec) callFuncValue(st *State, fv VFunc, args []Value, in ssa.Instructi
 		o := newObj("dyn", nil, "factory-result", "fresh")
 		st.heap[o] = &Content{Tag: fv.TagOf, MV: zeroMV(fv.TagOf)}
 		st.alloc = Add(st.alloc, IntC(256))
+		st.allocC += 256
 		rt := cc.Signature().Results().At(0).Type()
 		if _, isPtr := x.resolve(rt).Underlying().(*types.Pointer); isPtr {
 			return VPtr{Obj: o, IsNil: False}
@@ -187,7 +188,11 @@ func (x *Exec) builtin(st *State, b *ssa.Builtin, args []Value, cc *ssa.CallComm
 		ncap := FreshInt("cap")
 		st.assume(Le(newlen, ncap))
 		st.assume(Implies(fits, Eq(ncap, s.Cap)))
-		arr := x.newArray(st, s.Elem, newc, "appended", "fresh")
+		prov := "fresh"
+		if s.Arr != nil && s.Arr.Prov != "fresh" && s.Arr.Prov != "" && !(s.IsNil != nil && s.IsNil.IsTrue()) {
+			prov = s.Arr.Prov // appending within spare capacity writes into the original backing array
+		}
+		arr := x.newArray(st, s.Elem, newc, "appended", prov)
 		return VSlice{Arr: arr, Lo: IntC(0), Hi: newlen, Cap: ncap, IsNil: False, Elem: s.Elem}
 	case "copy":
 		dst := args[0].(VSlice)
@@ -535,6 +540,7 @@ func (x *Exec) stdlib(st *State, full string, args []Value, in ssa.Instruction, 
 	case "errors.New", "fmt.Errorf":
 		x.trusted(full)
 		st.alloc = Add(st.alloc, IntC(64))
+		st.allocC += 64
 		return VErr{False}, true
 	case "fmt.Sprintf", "fmt.Sprint":
 		x.trusted(full)
@@ -744,6 +750,8 @@ func (x *Exec) mapWrite(st *State, m VMap, key Value, val Value, del bool, in ss
 			bv = FreshInt("svc")
 			if sv, ok := v.Inner.(VService); ok {
 				st.assume(Eq(App("svc_alg", SSeq, bv), sv.Alg))
+			} else if op, ok := v.Inner.(VOpaque); ok && op.T != nil {
+				bv = op.T
 			} else if p, ok := v.Inner.(VPtr); ok && p.Obj != nil {
 				st.assume(Eq(App("svc_alg", SSeq, bv), x.V.algorithmOf(p.Obj.Type)))
 			}
